@@ -168,9 +168,9 @@ def shard(shard_i, nshards, payload):
                             "respelled": spell.respell(toks, rng, **DIMS[-1][1])[:300]})
         # one very long flat expression (hundreds to thousands of operands) under every layout: limits that count tokens
         # must not count the white space and comments between them
-        for i in range(shard_i, payload.get("n_long", 16), nshards):
+        for i in range(shard_i, payload.get("n_long", 12), nshards):
             rng = core.rng_for(seed, "c08long", i)
-            n = rng.choice([300, 700, 1500, 2500, 3000])
+            n = rng.choice([300, 700, 1500, 2500])
             op = rng.choice(["+", "-", "*", "OR", "AND", "XOR"])
             operand = gen.I("b") if op.isalpha() else gen.I("x")
             optok = gen.K(op) if op.isalpha() else gen.O(op)
